@@ -428,30 +428,26 @@ func sortedKeys(m map[string]bool) []string {
 // R02.2: arguments of filepath.Dir in Render methods of nodes never derive from an Engine field.
 func checkR02_2(w *World, r *Report) {
 	n := 0
-	for _, nt := range w.nodeStructs() {
-		m := w.tryMethod(nt.Obj().Name(), "Render")
-		if m == nil {
+	reach := w.renderOnlyReachable()
+	for _, fn := range w.pkgFuncs() {
+		if !reach[fn] {
 			continue
 		}
-		fns := []*ssa.Function{w.ssaFunc(m)}
-		fns = append(fns, fns[0].AnonFuncs...)
-		for _, fn := range fns {
-			instrsOf(fn, func(in ssa.Instruction) {
-				c, ok := in.(*ssa.Call)
-				if !ok || !isFunc(calleeFunc(c), "path/filepath", "", "Dir") {
-					return
-				}
-				n++
-				construct := "directory used to resolve relative template names"
-				if src := derivesFromEngineField(c.Call.Args[0], map[ssa.Value]bool{}, 0); src != "" {
-					r.bad("R02.2", ssaName(fn), construct, w.posOf(in.Pos()), "the directory comes from "+src+", engine-wide state that every concurrent Render overwrites: ./ and ../ names resolve against whatever template another goroutine is rendering")
-				} else {
-					r.ok("R02.2", ssaName(fn), construct, w.posOf(in.Pos()), "derived from per-render state (the render context / its template)", true)
-				}
-			})
-		}
+		instrsOf(fn, func(in ssa.Instruction) {
+			c, ok := in.(*ssa.Call)
+			if !ok || !isFunc(calleeFunc(c), "path/filepath", "", "Dir") {
+				return
+			}
+			n++
+			construct := "directory used to resolve relative template names"
+			if src := derivesFromEngineField(c.Call.Args[0], map[ssa.Value]bool{}, 0); src != "" {
+				r.bad("R02.2", ssaName(fn), construct, w.posOf(in.Pos()), "the directory comes from "+src+", engine-wide state that every concurrent Render overwrites: ./ and ../ names resolve against whatever template another goroutine is rendering")
+			} else {
+				r.ok("R02.2", ssaName(fn), construct, w.posOf(in.Pos()), "derived from per-render state (the render context / its template)", true)
+			}
+		})
 	}
-	r.floor("relative-name resolution sites in Render methods", n, 3)
+	r.floor("relative-name resolution sites on render paths", n, 1)
 }
 
 func derivesFromEngineField(v ssa.Value, seen map[ssa.Value]bool, depth int) string {
@@ -503,6 +499,35 @@ func derivesFromEngineField(v ssa.Value, seen map[ssa.Value]bool, depth int) str
 			return s
 		}
 		return derivesFromEngineField(x.Y, seen, depth+1)
+	case *ssa.Parameter:
+		// a helper: what its in-package callers pass
+		fn := x.Parent()
+		if curWorld == nil || fn == nil {
+			return ""
+		}
+		idx := -1
+		for i, p := range fn.Params {
+			if p == x {
+				idx = i
+			}
+		}
+		if node := curWorld.callgraph().Nodes[fn]; node != nil && idx >= 0 {
+			for _, e := range node.In {
+				if e.Site == nil || e.Caller.Func.Package() != fn.Package() {
+					continue
+				}
+				cc := e.Site.Common()
+				if cc.IsInvoke() || cc.StaticCallee() != fn || idx >= len(cc.Args) {
+					continue
+				}
+				if s := derivesFromEngineField(cc.Args[idx], seen, depth+1); s != "" {
+					return s + " (passed by " + ssaName(e.Caller.Func) + ")"
+				}
+			}
+		}
 	}
 	return ""
 }
+
+// curWorld: the program under analysis, for helpers that need the call graph.
+var curWorld *World
